@@ -67,6 +67,10 @@ func c09(c *Check) {
 		c.Spec("C09/turn-order-is-the-ascending-address-order", Macros{}, FnSpec{Fn: "x/xibc/clients/light-clients/bsc/types.validatorsAscending.Less",
 			Returns: []Ret{{Label: "byte-wise less", Index: 0, Want: []string{"($0[$1] <c $0[$2])"}}}})
 	}
+	c.Rule("C09/pending-set-is-the-epoch-headers", "frozen table (shared with C18): a client created or upgraded on an epoch header records as pending validator set the list that header carries (not the configured one), so the first switch goes to the announced set", 4)
+	c.FrozenFiltered("C18", "C09/pending-set-is-the-epoch-headers", func(fn string) bool {
+		return strings.Contains(fn, "light-clients/bsc/types") && (strings.HasSuffix(fn, "ClientState.Initialize") || strings.HasSuffix(fn, "ClientState.UpgradeState"))
+	})
 	c.Rule("C09/nothing-before-validity", "BSC CheckHeaderAndUpdateState changes state only after checkValidity accepted the header", 1)
 	nothingBeforeValidity(c, "C09/nothing-before-validity", "x/xibc/clients/light-clients/bsc/types.ClientState.CheckHeaderAndUpdateState")
 	neverBefore(c, "C09/pending-set-recorded-before-switch", c.F("x/xibc/clients/light-clients/bsc/types.update"), "bsc/types.GetPendingValidators", "bsc/types.SetPendingValidators",
